@@ -82,9 +82,17 @@ def r12a(model: Model, rr: RuleResult):
     for st in walk_body(fi):
         if isinstance(st, ast.If) and "keep_glyph_names" in norm(st.test):
             finals.append(st)
+    if len(finals) > 1:
+        finals = [f for f in finals if any(callee_tail(c) in ("_strip_glyph_names",) or (callee_tail(c) == "build" and "'copy'" in norm(c)) for c in calls_in(f, nested=True))][:1] or finals
     if len(finals) != 1:
         raise AnalysisError("_run: final keep_glyph_names branch not found")
     st = finals[0]
+    _, texprs = expr_closure(cfg, cfg.node_for(st), st.test)
+    ttxt = " ".join(norm(e) for e in texprs)
+    if "formatType" in ttxt or "['post']" in ttxt or "FLAGS.keep_glyph_names" in ttxt and "config.load()" not in ttxt:
+        rr.bad(fi, st, f"whether the final font keeps its glyph names depends on {short(st.test, 60)} (resolved: the raw flag / the input font's post table), not on the "
+               f"resolved configuration: an input with a format 2 post table comes back with post 2.0 and every pipeline-internal glyph name although names were not requested",
+               construct="maximum_color._run: final copy/strip decision not taken from config.load().keep_glyph_names")
     tb = [c for b in st.body for c in calls_in(b)]
     fb = [c for b in st.orelse for c in calls_in(b)]
     t_copy = [c for c in tb if callee_tail(c) == "build" and len(c.args) > 2 and norm(c.args[1]) == "'copy'" and norm(c.args[2]) == "wip_file" and norm(c.args[0]) == "final_output"]
@@ -346,3 +354,54 @@ def r12e(model: Model, rr: RuleResult):
         rr.ok("_copy_cbdt: bitmaps ordered by the target's glyph ids")
     else:
         rr.bad_shape(cfi, cfi.node, "_copy_cbdt does not order bitmaps by the target's glyph ids", construct="_copy_cbdt: order")
+
+
+@RULES.rule("C12", "R12f", "glyph elements are selected by their exact id; the picosvg step of maximum_color never clips", floor=2)
+def r12f(model: Model, rr: RuleResult):
+    fi = model.func("extract_svgs", "_remove_glyph_elements")
+    pref = []
+    for c in calls_in(fi, nested=True):
+        if callee_tail(c) in ("match", "search", "startswith") and not (callee_tail(c) == "match" and False):
+            pref.append(c)
+    comp = [c for c in ast.walk(fi.node) if isinstance(c, ast.Call) and norm(c.func) in ("re.compile", "regex.compile")]
+    anchored = any(isinstance(a, ast.Constant) and isinstance(a.value, str) and (a.value.endswith("$") or a.value.endswith("\\Z")) for c in comp for a in ast.walk(c))
+    if pref and not anchored and not any(callee_tail(c) == "fullmatch" for c in calls_in(fi, nested=True)):
+        rr.bad(fi, pref[0], f"{short(pref[0], 60)} is a prefix test on the element id: removing `glyph2` also removes `glyph20`, `glyph21`, ... so a glyph that shares a document "
+               f"with a lower gid whose digits it starts with loses its own artwork", construct=f"_remove_glyph_elements: prefix match {short(pref[0].func)}")
+    else:
+        xp = [c for c in calls_in(fi, nested=True) if callee_tail(c) == "xpath"]
+        if xp and any("@id='glyph{" in norm(a) or "@id=\"glyph{" in norm(a) for c in xp for a in c.args):
+            rr.ok("_remove_glyph_elements selects elements with @id equal to glyph<gid>")
+        elif pref:
+            rr.ok("_remove_glyph_elements matches whole ids (anchored / fullmatch)")
+        else:
+            rr.bad_shape(fi, fi.node, "how _remove_glyph_elements selects the elements to drop is not recognised", construct="_remove_glyph_elements: selection")
+    pre = model.func("maximum_color", "_write_preamble")
+    cmds = [a for c in calls_in(pre) if callee_tail(c) in ("rule", "module_rule") for a in c.args if isinstance(a, (ast.Constant, ast.JoinedStr)) and "picosvg" in norm(a) and "output_file" in norm(a)]
+    if not cmds:
+        raise AnalysisError("maximum_color._write_preamble: picosvg rule not found")
+    for a in cmds:
+        t = norm(a)
+        if "clip" in t:
+            rr.bad(pre, a, f"the picosvg rule of maximum_color passes a clip option ({short(a, 60)}): each per-glyph SVG has a viewBox of advance x line height, so ink that overhangs "
+                   f"its advance (and every zero-advance mark) is cropped in the added table", construct="maximum_color picosvg rule: clip option")
+        else:
+            rr.ok(f"maximum_color picosvg rule: {short(a, 60)} (no clipping)")
+
+
+@RULES.rule("C12", "R12g", "the donor's default palette is taken whole (every COLR palette index the donor uses exists in the target)", floor=1)
+def r12g(model: Model, rr: RuleResult):
+    fi = model.func("glue_together", "_copy_colr")
+    zips = [c for c in calls_in(fi, nested=True) if isinstance(c.func, ast.Name) and c.func.id == "zip" and any("palettes" in norm(a) or "palette" in norm(a) for a in c.args)]
+    sl = [n for n in walk_body(fi, nested=True) if isinstance(n, ast.Subscript) and isinstance(n.slice, ast.Slice) and "palettes" in norm(n.value) and "donor" in norm(n.value)]
+    if zips or sl:
+        x = (zips or sl)[0]
+        rr.bad(fi, x, f"{short(x, 80)}: the donor palette is copied only as far as the target's existing palette is long; surplus donor colours are dropped while the donor's COLR is "
+               f"taken whole, so layers reference palette entries the font does not have", construct=f"_copy_colr: palette truncated by {short(x, 40)}")
+        return
+    whole = [st for st in walk_body(fi) if isinstance(st, ast.Assign) and "palettes[0]" in norm(st.targets[0]) and "target" in norm(st.targets[0]) and "donor" in norm(st.value) and "palettes[0]" in norm(st.value)]
+    graft = [st for st in walk_body(fi) if isinstance(st, ast.Assign) and norm(st.targets[0]) in ("target['CPAL']", "target[tag]") ]
+    if whole or graft:
+        rr.ok("_copy_colr replaces palette 0 by the donor's palette 0 as a whole (or grafts the donor's CPAL)")
+    else:
+        rr.bad_shape(fi, fi.node, "how _copy_colr transfers the donor palette is not recognised", construct="_copy_colr: palette transfer")
